@@ -573,14 +573,28 @@ def bounded(tier_name, rnd):
                             "input": {"function": name, "wat": wat, "args": [_fj(a) for a in args]},
                             "expected": repr(want), "observed": repr(got) + (" (%s)" % exc if exc else "")})
         per[name] = nbad
+    from contracts import wasmprogs as WP
+    ncalls = 0
+    for pr in WP.PROGRAMS:
+        try:
+            bad = WP.run_program(pr)
+        except Exception as ex:
+            bad = [(0, 0, ("<instantiate>", ()), "instantiates", "raised %s: %s" % (type(ex).__name__, str(ex)[:100]))]
+        ncalls += 2 * len(pr[2])
+        for (rnd_i, ci, call, want, got) in bad[:2]:
+            vio.append({"name": "program %s, instantiation %d, call %d %s%r == reference" % (pr[0], rnd_i + 1, ci, call[0], tuple(call[1])),
+                        "input": {"program": pr[0], "wat": pr[1]}, "expected": repr(want), "observed": repr(got)})
+    evals += ncalls
     s0 = list(fs.values())[0]
-    return {"evaluations": evals, "distinct_nontrivial": evals, "exhaustive": True,
+    return {"evaluations": evals, "distinct_nontrivial": evals, "exhaustive": True, "program_calls": ncalls,
             "rule": "one exported function per numeric instruction of the supported set (%d functions: every i32/i64/f32/f64 arithmetic, bitwise, shift, rotate, "
                     "count, comparison, conversion, truncation, reinterpretation, sign-extension instruction, plus 5 functions reaching an operator through "
                     "constants / select / if) x the full product of a boundary-value grid per operand type (powers of two +-1, type minima / maxima, shift "
                     "counts around the width, signed zeros, infinities, NaN, rounding ties, values around 2^24 / 2^31 / 2^32 / 2^53 / 2^63 / 2^64); compiled by the "
-                    "real wasm->IR->python pipeline, compared with the reference semantics in contracts/wasmspec.py; each (function, arguments) pair is distinct"
-                    % len(fs),
+                    "real wasm->IR->python pipeline, compared with the reference semantics in contracts/wasmspec.py; each (function, arguments) pair is distinct.  Second part: %d "
+                    "multi-feature programs (contracts/wasmprogs.py: br_table, loops, recursion, memory with data segments / sub-word access / grow, tables and call_indirect, globals, "
+                    "f64 loop, traps), each instantiated twice from one Module object and driven through a fixed call sequence against a Python reference"
+                    % (len(fs), len(WP.PROGRAMS)),
             "programs": len(fs),
             "samples": [{"function": s0[0], "wat": s0[1], "args": [1, -1]}, {"function": "f64_min", "args": [{"__float__": "0.0"}, {"__float__": "-0.0"}]}],
             "bound": "single-instruction functions; %s operand grid (%d i32, %d i64, %d f32, %d f64 values); python execution target only"
@@ -592,6 +606,14 @@ _KNOWN_E2E = []
 
 
 def replay_bounded(inp):
+    if "program" in inp:
+        from contracts import wasmprogs as WP
+        pr = [q for q in WP.PROGRAMS if q[0] == inp["program"]][0]
+        bad = WP.run_program(pr)
+        if bad:
+            rnd_i, ci, call, want, got = bad[0]
+            return False, {"program": pr[0], "instantiation": rnd_i + 1, "call": "%s%r" % (call[0], tuple(call[1])), "expected": repr(want), "observed": repr(got)}
+        return True, {"program": pr[0], "observed": "every call of both instantiations equals the reference"}
     args = [_unj(a) for a in inp["args"]]
     ok, want, got, exc = _eval_one(inp["function"], args)
     detail = {"function": inp["function"], "args": inp["args"], "expected": repr(want), "observed": repr(got) + (" (%s)" % exc if exc else "")}
